@@ -7,8 +7,7 @@ import MJ.Proofs.C03Tables
 Stage 3 (partial): `vm_refines_eval_partial` — the model VM running the code of the model code
 generator refines the reference semantics on the fragment `Fragment` (text, `{{ e }}`, `set x = e`,
 `if`/`elif`/`else`; expressions with constant folding, short-circuit `and`/`or`, conditional
-expressions, filters, tests, attribute/item access, list and map literals; no chained comparison,
-no call).  `C03_full` states the theorem for everything the model generator compiles (loops,
+expressions, filters, tests, attribute/item access, list and map literals, chained comparisons; no call).  `C03_full` states the theorem for everything the model generator compiles (loops,
 `with`, captures, `break`/`continue`, …); beyond the fragment it is *checked* on every generated
 program (model VM vs. `exec` vs. the engine) but not yet proved.
 
@@ -23,12 +22,14 @@ The engine (`/repo`) is tied to `exec` by the differential oracle of `lib/props/
 namespace MJ.C03
 open MJ.Eval
 
-/-- the items a loop walks: all of them, or those that pass the loop filter -/
+/-- the items a loop walks: all of them, or those that pass the loop filter (the engine counts the
+latter with checked `i128` arithmetic) -/
 def keptItems (n : Nat) (ctx : Scope) (heap : Heap) (stack : List Nat) (target : Target)
     (flt : Option Expr) (xs : List Val) : Res (List Val) :=
   match flt with
   | none => .ok xs
-  | some c => filterItems n ctx heap stack target c xs
+  | some c => (filterItems n ctx heap stack target c xs).bind fun ks =>
+      if (ks.length : Int) ≤ i128Max then .ok ks else .error .invalidOp
 
 def loopSized (flt : Option Expr) (v : Val) : Bool :=
   match flt with
@@ -61,7 +62,10 @@ theorem for_else_iff_empty (n : Nat) (ctx : Scope) (stack : List Nat) (σ : Stat
         simp only
         cases filterItems n ctx σ.heap stack target c xs with
         | error e => rfl
-        | ok kept => cases kept <;> simp
+        | ok kept =>
+          by_cases hk : (kept.length : Int) ≤ i128Max
+          · simp only [if_pos hk]; cases kept <;> simp
+          · simp only [if_neg hk]
 
 
 /-- **Assignments inside a loop are invisible outside**: a `for` (without `else` branch), whatever
@@ -379,14 +383,25 @@ private def fragProg : List Stmt :=
      [.forS (.var "a") (.list [.var "w", ci 7, .var "x"]) none
         [.set (.var "x") (.var "a"), .emit (.var "x"), .text ":", .emit (.getattr (.var "loop") "revindex"),
          .ifS (.getattr (.var "loop") "last") [.text "."] [.text ","]] []],
-   .emit (.var "x"), .emit (.test "defined" (.var "w") [])]
+   .emit (.var "x"), .emit (.test "defined" (.var "w") []),
+   .forS (.tuple [.var "k", .var "v"]) (.list [.list [ci 1, .const (.str "p")], .list [ci 2, .const (.str "q")]]) none
+     [.emit (.var "v"), .emit (.var "k")] [.text "never"],
+   .forS (.var "z") (.var "nothing") none [.text "never"] [.text "|empty|"],
+   .setBlock "cap" [("upper", []), ("default", [(none, .const (.str "d"))])] [.text "ab", .emit (.var "x")],
+   .set (.tuple [.var "p", .tuple [.var "q", .var "r"]]) (.list [ci 1, .list [ci 2, ci 3]]),
+   .filterBlock [("lower", [])] [.emit (.var "cap"), .text "XY", .emit (.binop .add (.var "q") (.var "r"))],
+   .emit (.cmp (ci 1) [(.lt, .var "q"), (.le, .var "r"), (.notin, .list [ci 4, .var "x"])]),
+   .emit (.cmp (ci 1) [(.lt, .var "q"), (.gt, .var "r"), (.eq, .getattr (.var "nope") "boom")]),
+   .forS (.var "f") (.list [ci 1, ci 2, ci 3, ci 4]) (some (.test "odd" (.var "f") []))
+     [.emit (.var "f"), .emit (.getattr (.var "loop") "length")] [.text "none"],
+   .forS (.var "f") (.list [ci 1, ci 2]) (some (.binop .gt (.var "f") (ci 9))) [.emit (.var "f")] [.text "none"]]
 
 example : MJ.Compile.simpleBlock fragProg = true := by decide +kernel
 example : (MJ.Compile.compileTemplate fragProg).isSome = true := by decide +kernel
-example : (renderTemplate defaultFuel [("m", .map [("k", .str "v")])] fragProg).toOption = some "OK[5, 'v']10:3,7:2,5:1.5False" := by
+example : (renderTemplate defaultFuel [("m", .map [("k", .str "v")])] fragProg).toOption = some "OK[5, 'v']10:3,7:2,5:1.5Falsep1q2|empty|ab5xy5TrueFalse1232none" := by
   decide +kernel
 example : ((MJ.Compile.compileTemplate fragProg).bind fun code =>
-    (MJ.Vm.renderCode 1000 [("m", .map [("k", .str "v")])] code).toOption) = some "OK[5, 'v']10:3,7:2,5:1.5False" := by
+    (MJ.Vm.renderCode 1000 [("m", .map [("k", .str "v")])] code).toOption) = some "OK[5, 'v']10:3,7:2,5:1.5Falsep1q2|empty|ab5xy5TrueFalse1232none" := by
   decide +kernel
 
 end Examples
